@@ -9,6 +9,7 @@ package gohlslib
 import (
 	"bytes"
 	"context"
+	"sync/atomic"
 	"errors"
 	"fmt"
 	"io"
@@ -340,6 +341,7 @@ type cliOpts struct {
 	Horizon     time.Duration // virtual time after which the client is considered wedged (default 10 min)
 	OnTracksErr error
 	CloseAt     time.Duration // >0: call Close at this virtual time
+	Progress    *int64        // if set, incremented (atomically) for every delivered unit of the first reported track
 }
 
 func trackKind(t *Track) string {
@@ -413,6 +415,9 @@ func runClientPlain(t *testing.T, uri string, srv *stubServer, opts cliOpts) (ob
 						mu.Lock()
 						if ended {
 							obs.CallbackAfterEnd++
+						}
+						if opts.Progress != nil && i == 0 {
+							atomic.AddInt64(opts.Progress, 1)
 						}
 						cp := make([][]byte, len(data))
 						for k := range data {
